@@ -65,7 +65,13 @@ fn main() {
         "c16" => c16::run(&args),
         "c17" => c17::run(&args),
         "c18" => c18::run(&args),
-        "c19" => c19::run(&args),
+        "c19" => {
+            if args.get("leg") == Some("server") {
+                c19::run_server(&args)
+            } else {
+                c19::run(&args)
+            }
+        }
         "kernels" => {
             println!("{:?}", kyrodb_engine::verif_hooks::simd_available());
             return;
